@@ -6,7 +6,7 @@ func init() {
 		Harness: []string{"c01_chain.go"},
 		Entries: []EntrySpec{
 			{Pkg: "biscuit", Func: "VerifC01Chain", Quick: p("blocks", 1), Thorough: p("blocks", 2), Covers: []string{"accepted", "rejected"}, Solver: "z3-new"},
-			{Pkg: "biscuit", Func: "VerifC01Honest", Quick: p("blocks", 1), Thorough: p("blocks", 2), Covers: []string{"done"}, Solver: "cvc5"},
+			{Pkg: "biscuit", Func: "VerifC01Honest", Quick: p("blocks", 3), Thorough: p("blocks", 5), Covers: []string{"done"}},
 		},
 		Assumptions: append([]string{
 			"presented containers: 0..N+1 blocks after the authority (N = 1 quick / 2 thorough honest blocks); at every position the block bytes are any honest block, the announced key any honest key / attacker key / arbitrary 32 bytes, the algorithm Ed25519 or any int32, the signature any honest signature / a signature by any secret any party holds (root, attacker, every prefix's next secret) over exactly the placed fields / arbitrary 64 bytes; proof: any known or arbitrary next secret, any such seal signature, or absent; verifier key: honest root, attacker, arbitrary",
